@@ -95,6 +95,8 @@ Blank ==
       over  |-> 0,                             \* requests rejected because the queue was full
       oa    |-> 0, osub |-> <<>>,              \* what isActive / activeSubState answer during this call's callbacks
       ope   |-> 0, opx |-> 0, opc |-> 0,       \* what isPending* answer during the current guard round
+      dev   |-> Dev,                           \* deviation switches in force (open findings modelled as the code behaves)
+      notes |-> {},                            \* deviation switches that actually made a difference in this call
       sc    |-> EmptyScript ]
 
 QueueCapacity == COMPO_COUNT
@@ -912,9 +914,11 @@ UpdatePlan(m, head, sub) ==
                     THEN [mm EXCEPT !.succ = @ \ deferred, !.plans[r] = KeepNot(tasks, removed), !.rv = TSNone]
                     ELSE LET t == tasks[i] IN
                          IF t[1] \in mm.succ THEN
-                            LET kind == IF "PlanTaskKindIgnored" \in Dev THEN "change" ELSE t[3]
+                            \* D9 (open finding): the code issues changeTo / changeWith whatever the task's kind
+                            LET dev  == "PlanTaskKindIgnored" \in mm.dev /\ t[3] # "change"
+                                kind == IF dev THEN "change" ELSE t[3]
                                 m1   == CtlRequest([mm EXCEPT !.org = head], kind, t[2], t[4])
-                                m2   == [m1 EXCEPT !.org = mm.org]
+                                m2   == [m1 EXCEPT !.org = mm.org, !.notes = IF dev THEN @ \cup {"D9"} ELSE @]
                                 cyc  == t[1] = t[2]
                             IN Loop(IF cyc THEN [m2 EXCEPT !.succ = @ \ {t[1]}] ELSE m2,
                                     i + 1, removed \cup {i}, IF cyc THEN deferred ELSE deferred \cup {t[1]})
@@ -947,7 +951,7 @@ ClearStatuses(m) == [m EXCEPT !.succ = {}, !.fail = {},
 (* `sc` the script for this call.                                          *)
 
 BeginCall(m, sc) ==
-    [NewControl(m) EXCEPT !.ev = <<>>, !.draws = 0, !.rounds = <<>>, !.over = 0, !.ok = TRUE, !.rv = TSNone,
+    [NewControl(m) EXCEPT !.notes = {}, !.ev = <<>>, !.draws = 0, !.rounds = <<>>, !.over = 0, !.ok = TRUE, !.rv = TSNone,
                           !.pend = <<>>, !.cur = <<>>, !.sc = sc,
                           !.oa = ActiveMask(m), !.osub = SubList(m)]
 
@@ -993,7 +997,8 @@ Step(m, a, sc) ==
     CASE a[1] = "enter"   -> ApiEnter(m, sc)
       [] a[1] = "exit"    -> ApiExit(m, sc)
       [] a[1] = "del"     -> IF On(m) /\ ~Cfg.manual THEN ApiExit(m, sc) ELSE BeginCall(m, sc)
-      [] a[1] = "new"     -> IF Cfg.manual THEN BeginCall(Blank, sc) ELSE ApiEnter(Blank, sc)
+      [] a[1] = "new"     -> LET b == [Blank EXCEPT !.dev = m.dev] IN
+                             IF Cfg.manual THEN BeginCall(b, sc) ELSE ApiEnter(b, sc)
       [] a[1] = "reset"   -> ApiReset(m, sc)
       [] a[1] = "update"  -> ApiUpdate(m, sc)
       [] a[1] = "react"   -> ApiReact(m, sc)
